@@ -19,12 +19,39 @@ ALL_NODE_PROPS = ('C01', 'C03', 'C04', 'C09', 'C10', 'C11', 'C19')
 # ======================================================================================
 # HiddenDict
 # ======================================================================================
+def _arg_terms(a, st, skip=('self', 'seq', 'node_ids')):
+    out = {}
+    for name, val in vars(a).items():
+        if name in skip:
+            continue
+        try:
+            out[name] = T(val, st)
+        except Exception:
+            pass
+    return out
+
+
+def _hd_state(model, v, keys):
+    from pyvc.concretize import map_to_json, set_to_json
+    return {'data': map_to_json(model, v.data, keys), 'hidden': set_to_json(model, v.hidden, keys)}
+
+
 class HDContract(Contract):
     path = STORAGE_PY
     props = ALL_NODE_PROPS
 
     def hd(self, snap, a):
         return HDView(snap, a.self)
+
+    def witness(self, model, ctx):
+        from pyvc.concretize import universe, to_json, ev
+        pre, a = ctx['pre'], ctx['a']
+        st = ctx['it'].st
+        args = _arg_terms(a, st)
+        keys = universe(model, extra=list(args.values()))
+        return {'kind': 'storage', 'cls': 'HiddenDict', 'method': self.name.split('.')[1],
+                'args': {k: to_json(ev(model, t)) for k, t in args.items()},
+                'state': {'self': _hd_state(model, self.hd(pre, a), keys)}}
 
 
 @contract
@@ -162,6 +189,26 @@ class StContract(Contract):
 
     def sv(self, snap, a):
         return StorageView(snap, a.self)
+
+    def witness(self, model, ctx):
+        from pyvc.concretize import universe, to_json, ev, seq_to_json
+        pre, a = ctx['pre'], ctx['a']
+        st = ctx['it'].st
+        args = _arg_terms(a, st)
+        extra = list(args.values())
+        w = {'kind': 'storage', 'cls': 'DAGNodeStorage', 'method': self.name.split('.')[1]}
+        if hasattr(a, 'seq'):
+            w['seq'] = seq_to_json(model, a.seq)
+            from pyvc.concretize import from_json
+            extra += [from_json(j) for j in w['seq']]
+        else:
+            w['args'] = {k: to_json(ev(model, t)) for k, t in args.items()}
+        vals = list(extra)
+        extra = extra + [PyV.tup2(x, y) for x in vals for y in vals]      # the (source, dest) marker keys
+        keys = universe(model, extra=extra)
+        s = self.sv(pre, a)
+        w['state'] = {f: _hd_state(model, getattr(s, f), keys) for f in STORAGE_FIELDS}
+        return w
 
     def fresh(self, it, *kinds):
         st = it.st
